@@ -6,10 +6,10 @@ RA = {"EOFError": "True", "OSError": "True", "SSHException": "True"}
 APPROVED = "(ghost('app_consulted') and ghost('app_verdict') == 0 and ghost('app_user') == username)"
 
 
-def declare(E):
+def declare(E, keep_readers=()):
     from contracts import message
     message.declare(E)
-    message.light_readers(E)
+    message.light_readers(E, keep=keep_readers)
     E.declare_ghost(app_consulted="bool", app_verdict="int", app_user="str", sig_ok="bool", sig_blob="bytes",
                     session_blob="bytes", results_sent="int", last_result="int", last_result_user="str",
                     disconnected="bool", consult_count="int", sent_count="int", last_sent="bytes")
@@ -48,8 +48,12 @@ def declare(E):
     E.contract(AH + "_interactive_query", returns="none", raises=dict(RA), modifies=[])
     E.contract(AH + "_generate_key_from_request", params={"algorithm": "str", "keyblob": "bytes"},
                returns="opt[opaque:PKey]", raises={"SSHException": "True", "Exception": "True"}, modifies=[])
+    E.declare_ghost(sig_alg="bytes", declared_alg="bytes", sig_wellformed="bool")
     E.contract("PKey.verify_ssh_sig", argnames=["self", "data", "msg"], returns="bool",
-               ghost={"sig_ok": "result", "sig_blob": "data"},
+               ghost={"sig_ok": "result", "sig_blob": "data",
+                      # what the verified blob says about itself (first string), for C07
+                      "sig_wellformed": "len(msg.packet.getvalue()) >= 4 and unpack32(msg.packet.getvalue()[0:4]) <= len(msg.packet.getvalue()) - 4",
+                      "sig_alg": "msg.packet.getvalue()[4:4 + unpack32(msg.packet.getvalue()[0:4])]"},
                # key classes can raise on malformed signature blobs (C35); the handler must not treat that as valid
                raises={"Exception": {"when": "True", "ghost": {"verify_raised": "True"}}})
     E.declare_ghost(verify_raised="bool")
@@ -69,7 +73,8 @@ def declare(E):
                         " + pack32(len(utf8enc(username))) + utf8enc(username) + pack32(len(utf8enc(service))) + utf8enc(service)"
                         " + pack32(9) + b'publickey' + b'\\x01' + pack32(len(utf8enc(algorithm))) + utf8enc(algorithm)"
                         " + pack32(len(fn('key_bits', 'bytes', key))) + fn('key_bits', 'bytes', key)"},
-               ghost={"session_blob": "result"},
+               ghost={"session_blob": "result",
+                      "declared_alg": "utf8enc(fn('str_replace', 'str', algorithm, '-cert-v01@openssh.com', ''))"},
                returns="bytes", raises={"struct.error": "True"}, modifies=[])
     E.contract(AH + "_disconnect_no_more_auth", returns="none", raises=dict(RA), modifies=["self.transport.active"],
                ghost={"disconnected": "True"}, ensures=["not self.transport.active"])
